@@ -776,10 +776,12 @@ def oracle(tr, n, res, ref_digest):
         need = got["nrec"]
         if bits == "-":
             bits = ""
-        # a record is part of the committed state unless a later record (appended after a reopen discarded it,
-        # still before this commit) overwrote its place
+        # a record is part of the committed state if it lies below the commit's frontier and no later record
+        # (appended after a reopen discarded it, still before this commit) overwrote its place
+        free = got["root"]["free"] if got["root"] else 0
         live = [i for i in range(need)
-                if not any(tr.records[j]["off"] < tr.records[i]["off"] + 4 + tr.records[i]["len"]
+                if tr.records[i]["off"] + 4 + tr.records[i]["len"] <= free      # discarded by an earlier reopen otherwise
+                and not any(tr.records[j]["off"] < tr.records[i]["off"] + 4 + tr.records[i]["len"]
                            and tr.records[i]["off"] < tr.records[j]["off"] + 4 + tr.records[j]["len"]
                            for j in range(i + 1, need))]
         bad = [i for i in live if i < len(bits) and bits[i] != "1"]
